@@ -1,11 +1,11 @@
 SPECIFICATION Spec
 CONSTANTS
   Ks = {0, 1, 2}
-  ScriptIds = {2, 3, 7}
+  ScriptIds = {1, 2, 3, 4, 5, 7}
   Want = 2
   Cancels = {TRUE}
   Lates = {FALSE}
-  ClosingCheck = FALSE
+  ClosingCheck = TRUE
   Stops = {FALSE, TRUE}
-INVARIANTS TypeOK
+INVARIANTS TypeOK NoPanic
 PROPERTIES Termination
